@@ -27,7 +27,7 @@ ASSUMPTIONS = ASSUME_BUS + ["expected identity attributes come from decoding the
                             "unknown manufacturer codes and unclaimed sources after the discovery window are outside the "
                             "statement: only the identity carried (R1) is judged there; instants within 1 ms of the "
                             "window boundary are not judged"]
-SHRINK_PATHS = [("events",), ("listeners",)]
+SHRINK_PATHS = [("events",), ("listeners",), ("script", "*", "stream")]
 
 _names = {}
 
@@ -45,7 +45,75 @@ def _mfg_name(code):
     return m.source_iso_name.manufacturer_code if m is not None and m.source_iso_name is not None else None
 
 
+def _wire(kind, pgn, src, dst, prio, data):
+    idn = n2k.can_id(pgn, src, dst, prio)
+    if kind == "ebyte":
+        return n2k.wire_ebyte(idn, data)
+    if kind == "waveshare":
+        return n2k.wire_usb(idn, data)
+    if kind == "yd":
+        return n2k.wire_yd(idn, data)
+    return (n2k.actisense_line(pgn, src, dst, prio, data) + "\r\n").encode()
+
+
+def gen_client(rng, idx):
+    """Client-level variant: the identity map has to survive reconnects (devices do not claim again)."""
+    kind = rng.choice(["ebyte", "actisense", "yd", "waveshare"])
+    good, bad = rng.sample(traffic.MFG_CODES, 2)
+    a, b = rng.sample(range(1, 250), 2)
+    cfg = rng.choice([{"exclude_manufacturer_code": [c10._case(rng, _names[bad])]},
+                      {"include_manufacturer_code": [c10._case(rng, _names[good])]}])
+    ca, _ = n2k.claim_payload(rng.getrandbits(21), good, 1, 2, 130, 25, 0, 4, 1)
+    cb, _ = n2k.claim_payload(rng.getrandbits(21), bad, 1, 2, 130, 25, 0, 4, 1)
+    first = [["claim", _wire(kind, 60928, a, 255, 6, ca).hex()], ["claim", _wire(kind, 60928, b, 255, 6, cb).hex()]]
+    tag = 0
+    for _ in range(rng.randrange(1, 4)):
+        first.append(["pkt", traffic.tagged_packet(kind, tag, src=rng.choice([a, b])).hex()])
+        tag += 1
+    script = [{"a": "accept", "lat": 0.01, "stream": first, "chunks": [len(x[1]) // 2 for x in first], "gaps": [0.01], "start": 0.01,
+               "end": {"k": rng.choice(["eof", "reset"]), "after": sum(len(x[1]) // 2 for x in first), "d": 0.1}}]
+    for _ in range(rng.choice([0, 1, 2])):
+        script.append({"a": "refuse", "lat": 0.001})
+    later = []
+    for _ in range(rng.randrange(3, 8)):
+        later.append(["pkt", traffic.tagged_packet(kind, 100 + tag, src=rng.choice([a, b])).hex()])
+        tag += 1
+    script.append({"a": "accept", "lat": 0.01, "stream": later, "chunks": [len(x[1]) // 2 for x in later], "gaps": [0.05], "start": 0.1})
+    return {"net": True, "client": kind, "config": cfg, "script": script, "ops": [{"at": 0.0, "op": "connect", "id": 0}], "cb": {},
+            "knobs": {"min_end": 5.0, "tail": 30.0, "max_end": 600.0}, "good": [a, _names[good]], "bad": [b, _names[bad]]}
+
+
+def execute_client(plan):
+    from sim import net
+    o = net.run(plan)
+    v = []
+    a, good = plan["good"]
+    b, bad = plan["bad"]
+    st = {"client_level_runs": 1, "client_" + plan["client"]: 1, "reconnects": max(0, len(o.conns) - 1)}
+    for r in o.recv:
+        m = r[3]
+        if m.PGN == 60928:
+            continue
+        after = "after the reconnect" if len(o.conns) > 1 and r[1] > o.conns[-1]["at"] else "on the first connection"
+        if m.source == b:
+            v.append(viol("C11.R2", r[0], "client %s %s delivered %d/%s from address %d %s although its claimed manufacturer %r does "
+                          "not pass the manufacturer lists" % (plan["client"], plan["config"], m.PGN, m.id, b, after, bad)))
+            break
+        if m.source == a:
+            iso = m.source_iso_name
+            if iso is None or iso.manufacturer_code != good:
+                v.append(viol("C11.R1", r[0], "client %s: %d/%s from address %d delivered %s carries identity %s, its latest claim says "
+                              "manufacturer %r" % (plan["client"], m.PGN, m.id, a, after, None if iso is None else iso.manufacturer_code, good)))
+                break
+            st["returned_with_identity"] = st.get("returned_with_identity", 0) + 1
+    if o.crashed or o.stalls:
+        v.append(viol("C11.R4", len(o.trace), "run ended abnormally: %s %s" % (o.crashed, o.stalls[:1])))
+    return {"violations": v, "digest": o.digest, "stats": st, "nontrivial": len(o.conns) > 1 and len(o.recv) > 0, "vtime": o.end_vt}
+
+
 def gen(rng, idx, tier):
+    if idx % 12 == 11:
+        return gen_client(rng, idx)
     sources = rng.sample(range(0, 253), rng.randrange(2, 7))
     n = rng.choice([6, 12, 25, 40])
     ev = bustraffic.history(rng, n_items=n, sources=sources, claims=False, unknown=False, incomplete=rng.random() < 0.3)
@@ -69,9 +137,13 @@ def gen(rng, idx, tier):
             claims.append((rng.randrange(pos, len(ev) + 1), s, ident[s]))
         if rng.random() < 0.4:             # re-claim with a new NAME / other manufacturer
             claims.append((rng.randrange(pos, len(ev) + 1), s, (rng.getrandbits(21), rng.choice(codes))))
+        if rng.random() < 0.3:             # re-claim: same serial number and manufacturer, other instance / function / class
+            claims.append((rng.randrange(pos, len(ev) + 1), s, ident[s] + (rng.getrandbits(30),)))
     claims.sort(key=lambda c: c[0], reverse=True)
-    for pos, s, (uniq, code) in claims:
-        data, name = n2k.claim_payload(uniq, code, uniq & 7, (uniq >> 3) & 31, 130 + (uniq % 3) * 10, 25 + (uniq % 4) * 5, (uniq >> 8) & 15, 4, uniq & 1)
+    for pos, s, idt in claims:
+        uniq, code = idt[0], idt[1]
+        v = idt[2] if len(idt) > 2 else uniq          # the rest of the NAME follows the serial number unless varied on purpose
+        data, name = n2k.claim_payload(uniq, code, v & 7, (v >> 3) & 31, 130 + (v % 3) * 10, 25 + (v % 4) * 5, (v >> 8) & 15, 4, v & 1)
         ev.insert(pos, {"f": [60928, s, 255, 6, data.hex()], "k": "claim", "m": -1, "i": 0, "n": 1, "mfg": code, "name": name})
     # clock placement
     mode = rng.choice(["before", "before", "across", "after", "long"])
@@ -118,6 +190,8 @@ def _claim_identity(fr):
 
 
 def execute(plan):
+    if plan.get("net"):
+        return execute_client(plan)
     from nmea2000.decoder import NMEA2000Decoder
     vc = bus.VClock(0.0)
     bus.with_clock(vc)
@@ -254,5 +328,8 @@ def _brief(k):
 
 
 def describe(plan):
+    if plan.get("net"):
+        return {"client_level": True, "client": plan["client"], "config": plan["config"], "allowed": plan["good"], "excluded": plan["bad"],
+                "script": [{k: (v if k not in ("stream", "chunks", "gaps") else len(v)) for k, v in e.items()} for e in plan["script"]]}
     return {"format": plan["format"], "clock": plan.get("clock"), "listeners": plan["listeners"],
             "history": [[e.get("at")] + e["f"][:4] + [e["k"]] + ([e.get("mfg")] if e["k"] == "claim" else []) for e in plan["events"][:30]]}
